@@ -507,7 +507,9 @@ func (s *subsetter) SubsetGlyf(oldOutlines *glyf.Outlines) *glyf.Outlines {
 	if oldOutlines.Names != nil {
 		newOutlines.Names = make([]string, len(s.glyphs))
 		for newGid, oldGid := range s.glyphs {
-			newOutlines.Names[newGid] = oldOutlines.Names[oldGid]
+			if int(oldGid) < len(oldOutlines.Names) {
+				newOutlines.Names[newGid] = oldOutlines.Names[oldGid]
+			}
 		}
 	}
 
